@@ -9,7 +9,9 @@ open Yaclib.When Yaclib.Driver
 structure DS where
   w : Workload
   s : State
-  cur : List (String × Nat)
+  cur : List (String × List Nat)   -- thread ↦ inputs whose callbacks it has been handed, head = the one it is in
+  words : List Nat            -- input ↦ hand-off word (two inputs share a word if the same SharedFuture was passed twice)
+  inst : List (Nat × Nat)     -- (word, input) for every installed callback, in installation order
   silent : List Bool          -- the release of input i is not visible in the trace (shared core: a reference count decrement)
   skip : Bool                 -- no combinator at all (dynamic WhenAny with one input returns that input)
 
@@ -30,15 +32,18 @@ def initW (hdr : List String) : Option DS := do
   let shape := splitC (← hdrGet hdr "shape")
   let n ← (← hdrGet hdr "n").toNat?
   if pat.length ≠ n ∨ shape.length ≠ n then none
+  -- shape `d`: the same SharedFuture as the previous input (same word, same outcome)
+  let words := (shape.zipIdx).foldl (fun acc (c, i) => acc ++ [if c = "d" then acc.getLastD i else i]) ([] : List Nat)
   let inputs ← (pat.zipIdx).mapM fun (c, i) =>
+    let j := words.getD i i
     match c with
-    | "V" => some (Res.val i) | "E" => some (Res.err i) | "X" => some (Res.exc i) | _ => none
+    | "V" => some (Res.val j) | "E" => some (Res.err j) | "X" => some (Res.exc j) | _ => none
   if kind = "passthrough" then
-    pure { w := ⟨.anyNone, []⟩, s := init ⟨.anyNone, []⟩, cur := [], silent := [], skip := true }
+    pure { w := ⟨.anyNone, []⟩, s := init ⟨.anyNone, []⟩, cur := [], words := [], inst := [], silent := [], skip := true }
   else
     let st ← parseStrat kind policy
     let w : Workload := ⟨st, inputs⟩
-    pure { w := w, s := init w, cur := [], silent := shape.map (· ≠ "u"), skip := false }
+    pure { w := w, s := init w, cur := [], words := words, inst := [], silent := shape.map (· ≠ "u"), skip := false }
 
 def showRes : Res → String
   | .val v => s!"val:{v}" | .err c => s!"err:{c}" | .exc c => s!"exc:{c}"
@@ -58,14 +63,21 @@ def showDS (d : DS) : String :=
   let s := d.s
   let pcs := (List.range d.w.n).map fun i => showPc (s.pc i)
   s!"reg={s.reg} busy={s.busy} pc={pcs} count={s.count} flag={s.flag} st3={reprStr s.st3} lf={s.lf} saved={reprStr s.saved} " ++
-  s!"relIdx={s.relIdx} pValid={s.pValid} crashed={s.crashed} out={s.outSet.map showOut} win={s.win} order={s.rmwOrder} cur={d.cur}"
+  s!"relIdx={s.relIdx} pValid={s.pValid} crashed={s.crashed} out={s.outSet.map showOut} win={s.win} order={s.rmwOrder} cur={d.cur} inst={d.inst}"
+
+def queueOf (d : DS) (t : String) : List Nat :=
+  match d.cur.find? (·.1 = t) with
+  | some (_, q) => q
+  | none => []
+
+def setQueue (d : DS) (t : String) (q : List Nat) : DS := { d with cur := (t, q) :: d.cur.filter (·.1 ≠ t) }
+
+def setCur (d : DS) (t : String) (i : Nat) : DS := setQueue d t [i]
 
 def curOf (d : DS) (t : String) : Option Nat :=
-  match d.cur.find? (·.1 = t) with
-  | some (_, i) => if d.s.pc i = .done then none else some i
-  | none => none
-
-def setCur (d : DS) (t : String) (i : Nat) : DS := { d with cur := (t, i) :: d.cur.filter (·.1 ≠ t) }
+  match queueOf d t with
+  | i :: _ => if d.s.pc i = .done then none else some i
+  | [] => none
 
 /-- steps the trace cannot show (release of a shared input): taken as soon as the acting thread is there -/
 def flush (d : DS) (i : Nat) : Nat → DS
@@ -86,10 +98,22 @@ def flush (d : DS) (i : Nat) : Nat → DS
           else d
       | _ => d
 
+/-- bring thread `t` to the callback it is in: take the silent steps of the current one; when that one has finished and
+    the thread was handed more callbacks (the same SharedFuture passed twice), enter the next one -/
 def flushT (d : DS) (t : String) : DS :=
-  match curOf d t with
-  | some i => flush d i (d.w.n + 2)
-  | none => d
+  match queueOf d t with
+  | [] => d
+  | i :: rest =>
+      let d1 := flush d i (d.w.n + 2)
+      if d1.s.pc i = .done then
+        match rest with
+        | [] => d1
+        | k :: _ =>
+            let d2 := setQueue d1 t rest
+            match next d2.w d2.s (.fire k) with
+            | some s' => flush { d2 with s := s' } k (d.w.n + 2)
+            | none => d2
+      else d1
 
 def parse3 (s : String) : Option St3 :=
   match s with | "0" => some .empty | "1" => some .error | "2" => some .value | _ => none
@@ -133,18 +157,24 @@ def stepW (d0 : DS) (ts : List String) : Option (Option (DS × String)) :=
   match ts with
   | [t, "A", obj, op, _ord, arg, "->", res] =>
       match isWord obj with
-      | some i =>
+      | some wd =>
           if t = "r" then
-            if d0.s.reg = i ∧ i < d0.w.n ∧ d0.s.busy = none then
+            -- the registration loop works through the inputs in index order: `i` is the one it is at
+            let i := d0.s.reg
+            if d0.words[i]? = some wd ∧ i < d0.w.n ∧ d0.s.busy = none then
               if op = "load" then
                 (if res = "result" then apply (setCur d0 t i) (.regSet i false) else none)
               else if op.startsWith "cas" then
-                (if res = "ok" then apply d0 (.regSet i true)
+                (if res = "ok" then apply { d0 with inst := d0.inst ++ [(wd, i)] } (.regSet i true)
                  else if res = "fail:result" then apply (setCur d0 t i) (.regSet i false) else none)
               else none
             else none
           else if op = "xchg" ∧ arg = "result" then
-            (if res = "empty" then none else if res = "result" then some none else apply (setCur d0 t i) (.fire i))
+            if res = "empty" then none else if res = "result" then some none else
+            -- the completer is handed every callback installed on this word, most recently installed first
+            match ((d0.inst.filter (·.1 = wd)).map (·.2)).reverse.filter (fun k => d0.s.pc k = .pending) with
+            | [] => none     -- only other subscribers (the combinator callback is not installed yet / was consumed inline)
+            | k :: rest => apply (setQueue d0 t (k :: rest)) (.fire k)
           else none
       | none =>
           if obj = "st" ∨ obj = "cnt" ∨ (obj = "out" ∧ op = "xchg") then
@@ -194,6 +224,7 @@ def stepW (d0 : DS) (ts : List String) : Option (Option (DS × String)) :=
       match d0.s.outSet with
       | [o] => if showOut o = v then some (some (d0, "obs.out")) else some none
       | _ => some none
+  | [_, "E", "sub", _, _] => none      -- another subscriber of a shared input (harness monitor)
   | [_, "E", "invalid"] => if d0.w.n = 0 then some (some (d0, "obs.invalid")) else some none
   | [t, "E", "crash"] =>
       match curOf d0 t with
